@@ -17,10 +17,11 @@
 
   Proofs: Proofs/ValidLemmas.lean (lists, tables, `Arr.Valid` = `validB` clause by clause),
   ValidOps.lean, ValidTdot.lean, ValidMore.lean, ValidTdotF.lean, ValidLinalg.lean,
-  ValidFuse.lean, ValidFuse2.lean, ValidFuseF.lean, ValidProg.lean.
+  ValidFuse.lean, ValidFuse2.lean, ValidFuseF.lean, ValidTdotFused.lean, ValidMisc.lean,
+  ValidProg.lean.
 
-  Not covered (PLANNED): fuse in `mode="concat"`, `tensordot` in fused mode (needs the
-  former), einsum, trace/matmul wrappers, eigh, solve, svd_truncated (`applyCounts`), reshape.
+  Not covered (PLANNED): fuse in `mode="concat"`, einsum, solve (known finding for an odd
+  matrix), svd_truncated (`applyCounts`), reshape, align_axes.
 
   Two statements are deliberately NOT of the naive form, each with a machine-checked
   counterexample below:
@@ -252,35 +253,60 @@ theorem tensordotBlockwise_valid_abelian_part [Zero R] [Add R] [Mul R] (a b : Ar
   exact (validB_iff _).mpr ⟨hcore.idx, hcore.chg, hcore.nodup, hcore.blk, by
     unfold SignsOk; exact ⟨rfl, rfl⟩⟩
 
-/-- the public entry `tensordot_abelian(a, b, axes, mode="blockwise")` -/
-theorem tensordotA_valid [Zero R] [Add R] [Mul R] (a b r : Arr R) (axesA axesB : List Nat)
+/-- the public entry `tensordot_abelian(a, b, axes, mode)` in EVERY mode: `blockwise`, `fused`
+    (drop misaligned sectors, fuse both operands to matrices, contract, unfuse) and `auto` -/
+theorem tensordotA_valid [Zero R] [Add R] [Mul R] (mode : TdotMode) (a b r : Arr R)
+    (axesA axesB : List Nat)
     (ha : a.validB = true) (hb : b.validB = true) (hfa : a.fermi = false)
     (hadm : tdotAdmissibleB a b axesA axesB = true)
-    (h : tensordotA a b (.pair (axesA.map Int.ofNat) (axesB.map Int.ofNat)) .blockwise = .ok r) :
+    (h : tensordotA a b (.pair (axesA.map Int.ofNat) (axesB.map Int.ofNat)) mode = .ok r) :
     r.validB = true :=
-  (validB_iff _).mpr (tensordotA_blockwise_valid a b r axesA axesB ((validB_iff a).mp ha)
+  (validB_iff _).mpr (tensordotA_valid_all mode a b r axesA axesB ((validB_iff a).mp ha)
     ((validB_iff b).mp hb) hfa hadm h)
 
-/-- the public entry `tensordot_fermionic(a, b, axes, mode="blockwise")`: transposes, phase
+/-- the public entry `tensordot_fermionic(a, b, axes, mode)` in every mode: transposes, phase
     bookkeeping, the abelian kernel and `resolve_combined_oddpos` — the result is valid
     including the odd-position parity clause -/
-theorem tensordotF_valid [Zero R] [Add R] [Mul R] [Neg R] (a b r : Arr R) (axesA axesB : List Nat)
+theorem tensordotF_valid [Zero R] [Add R] [Mul R] [Neg R] (mode : TdotMode) (a b r : Arr R)
+    (axesA axesB : List Nat)
     (ha : a.validB = true) (hb : b.validB = true) (hfa : a.fermi = true) (hfb : b.fermi = true)
     (hadm : tdotAdmissibleB a b axesA axesB = true)
-    (h : Arr.tensordotF a b (.pair (axesA.map Int.ofNat) (axesB.map Int.ofNat)) .blockwise = .ok r) :
+    (h : Arr.tensordotF a b (.pair (axesA.map Int.ofNat) (axesB.map Int.ofNat)) mode = .ok r) :
     r.validB = true :=
-  (validB_iff _).mpr (tensordotF_blockwise_valid a b r axesA axesB ((validB_iff a).mp ha)
+  (validB_iff _).mpr (tensordotF_valid_all mode a b r axesA axesB ((validB_iff a).mp ha)
     ((validB_iff b).mp hb) hfa hfb hadm h)
+
+/-- `a @ b` for ranks 1 and 2, abelian -/
+theorem matmulA_valid [Zero R] [Add R] [Mul R] (a b c : Arr R) (ha : a.validB = true)
+    (hb : b.validB = true) (hfa : a.fermi = false) (hadm : matmulAdmissibleB a b = true)
+    (h : matmulA a b = .ok c) : c.validB = true :=
+  (validB_iff _).mpr (ValidP.matmulA_valid a b c ((validB_iff a).mp ha) ((validB_iff b).mp hb)
+    hfa hadm h)
+
+/-- `a @ b`, fermionic -/
+theorem matmulF_valid [Zero R] [Add R] [Mul R] [Neg R] (a b c : Arr R) (ha : a.validB = true)
+    (hb : b.validB = true) (hfa : a.fermi = true) (hfb : b.fermi = true)
+    (hadm : matmulAdmissibleB a b = true) (h : Arr.matmulF a b = .ok c) : c.validB = true :=
+  (validB_iff _).mpr (ValidP.matmulF_valid a b c ((validB_iff a).mp ha) ((validB_iff b).mp hb)
+    hfa hfb hadm h)
+
+example : matmulAdmissibleB exA exB = true := by decide
 
 example : tdotAdmissibleB exF exG [2] [0] = true := by decide
 
-/-- cross-check by evaluation: the two example contractions succeed, have two blocks each and
+/-- cross-check by evaluation: the example contractions (block-wise and fused mode) succeed, have two blocks each and
     pass `validB` -/
 example :
     (match tensordotA exA exB (.pair [1] [0]) .blockwise with
      | .ok r => r.validB && r.blocks.length == 2
      | .error _ => false) = true
+    ∧ (match tensordotA exA exB (.pair [1] [0]) .fused with
+       | .ok r => r.validB && r.blocks.length == 2
+       | .error _ => false) = true
     ∧ (match Arr.tensordotF exF exG (.pair [2] [0]) .blockwise with
+       | .ok r => r.validB && decide (2 ≤ r.blocks.length)
+       | .error _ => false) = true
+    ∧ (match Arr.tensordotF exF exG (.pair [2] [0]) .auto with
        | .ok r => r.validB && decide (2 ≤ r.blocks.length)
        | .error _ => false) = true := by
   decide +kernel
@@ -339,6 +365,14 @@ theorem svdA_valid (K : Kernels R) (x u v : Arr R) (s : BVec R) (hv : x.validB =
     (hK : SvdShapeContract K) (h : svdA K x = .ok (u, s, v)) :
     u.validB = true ∧ v.validB = true :=
   ValidP.svdA_validB K x u v s hv hK h
+
+/-- the eigenvector array of `eigh` (abelian and fermionic) under the kernel shape contract
+    (eigenvectors of a square block: same shape) -/
+theorem eighA_valid [Neg R] (K : Kernels R) (a v : Arr R) (w : BVec R) (hv : a.validB = true)
+    (hK : EighShapeContract K) (h : eighA K a = .ok (w, v)) : v.validB = true :=
+  (validB_iff _).mpr (ValidP.eighA_valid K a v w ((validB_iff a).mp hv) hK h)
+
+example : EighShapeContract (Kernels.shapeOnly : Kernels Int) := shapeOnly_eighContract
 
 /-- in a valid matrix the row charge of a stored sector is determined by its column charge -/
 theorem matrix_sector_injective {x : Arr R} (hv : x.validB = true) {i0 i1 : Index}
@@ -414,8 +448,8 @@ example :
 
 /-- every finite sequence of operations (`Op`: transpose, conj, dagger, the five phase
     operations, expand_dims, squeeze, sync_charges, multiply_diagonal, drop_misaligned,
-    tensordot (abelian and fermionic, second operand as parameter), blockwise arithmetic, qr and
-    svd factors, fuse, unfuse, unfuse_all) maps a valid array to a valid array.  `Prog.run` stops with an error at the
+    tensordot in every mode and matmul (abelian and fermionic, second operand as parameter),
+    blockwise arithmetic, qr / svd / eigh factors, fuse, unfuse, unfuse_all) maps a valid array to a valid array.  `Prog.run` stops with an error at the
     first inadmissible call (`Op.admissible`, decidable) or model error. -/
 theorem Prog.preserves_valid [Zero R] [Add R] [Mul R] [Neg R] [Conj R] (p : Prog R) (a r : Arr R)
     (hv : a.validB = true) (hK : ∀ op ∈ p, op.KernelOk) (h : p.run a = .ok r) :
@@ -432,7 +466,7 @@ theorem Op.preserves_valid [Zero R] [Add R] [Mul R] [Neg R] [Conj R] (op : Op R)
     arithmetic, decomposition) … -/
 def progA : Prog Int :=
   [.transpose [1, 0] true, .conj true false, .transpose [1, 0] true, .conj true false,
-   .tensordot exB [1] [0], .expandDims 1 none (some true), .squeeze (some [1]),
+   .tensordot exB [1] [0] .auto, .expandDims 1 none (some true), .squeeze (some [1]),
    .syncCharges, .qrQ Kernels.shapeOnly, .fuse [[1, 0]] true, .unfuse 0,
    .expandDims 0 (some (2, 0)) none]
 
@@ -440,7 +474,7 @@ def progA : Prog Int :=
 def progF : Prog Int :=
   [.fuse [[1, 2]] true, .unfuse 1,
    .transpose [2, 0, 1] true, .phaseFlip [0, 2], .conj true true, .dagger true,
-   .phaseTranspose none, .phaseGlobal, .tensordot exG [2] [0], .phaseSync]
+   .phaseTranspose none, .phaseGlobal, .tensordot exG [2] [0] .fused, .phaseSync]
 
 example : (∀ op ∈ progA, op.KernelOk) ∧ (∀ op ∈ progF, op.KernelOk) := by
   refine ⟨fun op h => ?_, fun op h => ?_⟩
